@@ -20,6 +20,10 @@
  */
 extern int mpt_reply_set(MPT_INTERFACE(reply_data) *rd, size_t len, const void *data)
 {
+	/* active request must be answered (or deferred) first */
+	if (rd->len) {
+		return MPT_ERROR(BadOperation);
+	}
 	if (len > rd->_max) {
 		return MPT_ERROR(BadValue);
 	}
